@@ -43,6 +43,21 @@ func c08Node(r *h.Rng, id string, kind int, dw []string, expiring bool) []h.Op {
 		if len(dw) > 0 {
 			f["deleteWith"] = dwi
 		}
+		// "nothing else is deleted": an item that merely mentions another id (as a
+		// value, in a list, as a key) does not depend on it
+		if r.P(1, 3) {
+			other := fmt.Sprintf("n%d", r.Intn(5))
+			switch r.Intn(4) {
+			case 0:
+				f["near"] = other
+			case 1:
+				f["tags"] = []interface{}{other, "x"}
+			case 2:
+				f["about"] = map[string]interface{}{other: "deleteWith"}
+			default:
+				f["note"] = map[string]interface{}{"deleteWith": other} // a nested key of that name is data
+			}
+		}
 		if expiring {
 			f["ttl"] = "10s"
 		}
